@@ -266,7 +266,7 @@ class PortModel(object):
                     'cells': tuple(sorted(((k, w, s2.canon(t)) for k, (w, t) in o.cells.items()), key=repr)),
                     'regions': mem.getattr_regions(o), 'ctx': s2.canon(ctx.t), 'fn': I.fn}
             n = sum(1 for e in s2.trace if e[0] == 'send')
-            rc = ('sym', 'rc.send_frame.%s.%d' % (I.fn, n), I32[0], I32[1])
+            rc = ('sym', 'rc.send_frame.%d' % n, I32[0], I32[1])      # n-th transmit of this trace (no function name: renames are not behaviour)
             s2.effect(('send', Frozen(snap)))
             out.append((s2, Val(rty, rc)))
         return out
